@@ -51,7 +51,7 @@ func (s *c09) Start(r *kit.Rng, cfg map[string]int64) {
 	if r == nil {
 		return
 	}
-	s.maxSteps = r.Range(3, 60)
+	s.maxSteps = r.Range(3, 60*kit.Depth)
 	if r.Chance(1, 4) {
 		s.maxSteps = r.Range(3, 10)
 	}
